@@ -6,6 +6,7 @@ import (
 	"syscall"
 
 	"github.com/superfly/litefs"
+	"github.com/superfly/ltx"
 )
 
 func init() {
@@ -97,6 +98,17 @@ func runC03(r *Run) {
 	sub := n.Store.SubscribeEvents()
 	defer sub.Stop()
 	drainTxEvents(sub, dbName)
+	// the position at the instant the WAL write lock becomes free: a committed
+	// transaction is captured when the lock is released, not some time after
+	// (between the two another connection could already take the lock)
+	var posAtUnlock ltx.Pos
+	var unlocks int
+	db.VerifSetLockHook(func(lt litefs.LockType, prev, next litefs.RWMutexState) {
+		if lt == litefs.LockTypeWrite && prev == litefs.RWMutexStateExclusive && next == litefs.RWMutexStateUnlocked {
+			posAtUnlock = db.Pos()
+			unlocks++
+		}
+	})
 
 	var ops []string
 	reopen := func(c *Conn) bool {
@@ -117,6 +129,7 @@ func runC03(r *Run) {
 		r.Step()
 		c := conns[t.Next(nconn)]
 		prev := db.Pos()
+		unlocks = 0
 		kind := t.Pick([]int{60, 10, 14, 4, 4, 4, 4})
 		var desc string
 		expectAdvance := false
@@ -236,6 +249,9 @@ func runC03(r *Run) {
 		evs := drainTxEvents(sub, dbName)
 		if expectAdvance {
 			if !r.Check(now.TXID == prev.TXID+1, "c03.capture", "a committed WAL transaction released the write lock but the position went %s -> %s", prev, now) {
+				break
+			}
+			if unlocks > 0 && !r.Check(posAtUnlock == now, "c03.capture-after-unlock", "at the instant the WAL write lock became free the position was still %s; the committed transaction (%s) was captured only afterwards", posAtUnlock, now) {
 				break
 			}
 			f := checkLTXForCommit(r, n, dbName, prev, now, ref, want, "c03")
